@@ -79,7 +79,8 @@ with open(os.path.join(d, "argv.log"), "a", encoding="utf-8", errors="surrogatee
     f.write(json.dumps(rec) + "\n")
 
 if k in cfg.get("fail", []) or any(sub in argv for sub in cfg.get("fail_argv", [])):
-    sys.stderr.write("fakevcs: forced failure of %s\n" % k)
+    if not cfg.get("fail_silent"):
+        sys.stderr.write("fakevcs: forced failure of %s\n" % k)
     sys.exit(1)
 out = ""
 if k == "is_usable":
